@@ -109,6 +109,8 @@ def sym_run(name, make, pre, body, post, case_of, scenarios=None,
             if sample_every and (res["paths"] % sample_every == 0) and len(res["samples"]) < 5:
                 res["samples"].append(case_of(e.model_of(), inp))
 
+        if not budget_s:
+            budget_s = float(os.environ.get("VERIF_JOB_BUDGET", "900"))
         deadline = t0 + budget_s if budget_s else None
         st = eng.explore(run, on_path, max_paths=max_paths, deadline=deadline)
         for k in ("paths", "aborts", "unsupported", "cut", "flip_unknown", "complete"):
